@@ -26,6 +26,10 @@ func init() {
 				Doc: "The helper that registers a service scans the container's service list for an earlier registration; a caller that passes an element of that same list while the list is unchanged makes the scan vacuously true: nothing is registered on the new mux and every remaining service answers 404 through ServeHTTP after any Remove."},
 			{ID: "C11.f", Template: "T-ENFORCE", Required: true, Run: ruleC11f,
 				Doc: "Removal scans run to exhaustion: in Remove and RemoveRoute the loop over the registered services/routes has the exhaustion of the list as its only exit - no return and no store of the new list from inside the loop. A scan that stops at the first match leaves later entries with the same key reachable."},
+			{ID: "C11.g", Template: "T-GUARD", Required: true, Run: ruleC11g,
+				Doc: "An entry is dropped by a removal only when its whole key equals the argument's (Method and Path for RemoveRoute, root path for Remove); every other entry is appended to the new list before the scan moves on. A weakened condition (|| for &&, a constant) removes routes nobody asked to remove."},
+			{ID: "C11.h", Template: "T-ORDER", Required: true, Run: ruleC11h,
+				Doc: "The registration helper registers on the mux on every path on which no earlier registration was found, and reports 'registered on root' only after it registered \"/\": otherwise a service is reachable through Dispatch but answers 404 through ServeHTTP, or all later services are never registered."},
 			{ID: "C11.e", Template: "T-SIBLING", Required: true, Run: ruleC11e,
 				Doc: "Remove builds a new mux; whatever registers on the container's mux must be replayed onto it, otherwise that kind of registration vanishes after any Remove."},
 		},
@@ -769,4 +773,195 @@ func positiveUnderEquality(p *Program, h *ssa.Function, accept func(x, y ssa.Val
 		return nil
 	}
 	return found
+}
+
+func ruleC11g(c *Ctx) {
+	p := c.P
+	for _, spec := range []struct {
+		fn, owner, field string
+		keys             []string
+	}{{"(*Container).Remove", "Container", "webServices", []string{"rootPath"}}, {"(*WebService).RemoveRoute", "WebService", "routes", []string{"Method", "Path"}}} {
+		fn := p.fn(spec.fn)
+		if fn == nil {
+			c.undecided("-", spec.fn, "-", "not found")
+			continue
+		}
+		name := p.fname(fn)
+		cyc := blocksOnCycles(fn)
+		// the keep-append: an append into the new list of the current element, inside the loop
+		var keep ssa.Instruction
+		eachInstr(fn, func(i ssa.Instruction) {
+			if isBuiltinCall(i, "append") && cyc[i.Block()] {
+				keep = i
+			}
+		})
+		if keep == nil {
+			c.bad(name, "kept entries are appended to the new list", p.pos(fn.Pos()), "no append inside the removal scan: every entry is dropped")
+			continue
+		}
+		// loop header of the scan
+		var header *ssa.BasicBlock
+		for b := keep.Block(); b != nil; b = b.Idom() {
+			if cyc[b] && reachableBlocks(keep.Block().Succs, nil)[b] {
+				if _, ok := b.Instrs[len(b.Instrs)-1].(*ssa.If); ok {
+					for _, s := range b.Succs {
+						if !reachableBlocks([]*ssa.BasicBlock{s}, nil)[b] {
+							header = b
+						}
+					}
+				}
+			}
+			if header != nil {
+				break
+			}
+		}
+		if header == nil {
+			c.undecided(name, "removal scan", p.ipos(keep), "cannot find the loop of the scan")
+			continue
+		}
+		var bodyEntry *ssa.BasicBlock
+		for _, s := range header.Succs {
+			if reachableBlocks([]*ssa.BasicBlock{s}, nil)[header] {
+				bodyEntry = s
+			}
+		}
+		paths, ok := enumPathsBetween(fn, bodyEntry, header, 500)
+		if !ok || len(paths) == 0 {
+			c.undecided(name, "removal scan", p.ipos(keep), "cannot enumerate the paths of one iteration")
+			continue
+		}
+		nskip, bad := 0, ""
+		for _, pa := range paths {
+			if pa.has(keep.Block()) {
+				continue
+			}
+			nskip++
+			for _, k := range spec.keys {
+				found := false
+				for f := range pa.Facts {
+					bo, ok := f.Cond.(*ssa.BinOp)
+					if !ok || !f.Pol || bo.Op != token.EQL {
+						continue
+					}
+					_, f1, ok1 := fieldLoad(strip(bo.X))
+					_, f2, ok2 := fieldLoad(strip(bo.Y))
+					n1, n2 := "", ""
+					if ok1 {
+						n1 = f1.Name()
+					}
+					if ok2 {
+						n2 = f2.Name()
+					}
+					if call, ok := strip(bo.X).(*ssa.Call); ok && call.Call.StaticCallee() != nil {
+						n1 = call.Call.StaticCallee().Name()
+					}
+					if call, ok := strip(bo.Y).(*ssa.Call); ok && call.Call.StaticCallee() != nil {
+						n2 = call.Call.StaticCallee().Name()
+					}
+					if strings.EqualFold(n1, k) || strings.EqualFold(n2, k) {
+						found = true
+					}
+				}
+				if !found {
+					bad = "an entry can be dropped without its " + k + " being equal to the argument's"
+				}
+			}
+		}
+		c.check(nskip > 0 && bad == "", name, "an entry is dropped only when its whole key matches", p.ipos(keep), "every dropping path carries equality on "+strings.Join(spec.keys, " and "),
+			bad+": entries nobody asked to remove disappear")
+	}
+}
+
+func ruleC11h(c *Ctx) {
+	p := c.P
+	roles := p.Roles()
+	seen := map[*ssa.Function]bool{}
+	for _, reg := range muxRegistrations(p) {
+		fn := reg.Fn
+		if seen[fn] || !roles.MutatorPath[fn] {
+			continue
+		}
+		seen[fn] = true
+		name := p.fname(fn)
+		var regs []muxRegistration
+		for _, r := range muxRegistrations(p) {
+			if r.Fn == fn {
+				regs = append(regs, r)
+			}
+		}
+		paths, ok := enumPaths(fn, nil, 2000)
+		if !ok {
+			c.undecided(name, "paths through the registration helper", p.pos(fn.Pos()), "too many paths")
+			continue
+		}
+		// suppression: a scan equality or a membership helper answered "already registered"
+		isSuppression := func(f condFact) bool {
+			if !f.Pol {
+				return false
+			}
+			switch x := f.Cond.(type) {
+			case *ssa.BinOp:
+				if x.Op == token.EQL && isStringType(x.X.Type()) {
+					_, okX := elementRooted(p, x.X)
+					_, okY := elementRooted(p, x.Y)
+					return okX || okY
+				}
+			case *ssa.Call:
+				return x.Call.StaticCallee() != nil && p.inModule(x.Call.StaticCallee()) && isBoolFunc(x.Call.StaticCallee())
+			}
+			return false
+		}
+		badNone, badRoot := "", ""
+		for _, pa := range paths {
+			nreg, root := 0, false
+			var ret *ssa.Return
+			for _, i := range pa.instrs() {
+				for _, r := range regs {
+					if r.Call == i {
+						nreg++
+						if k, ok := constStr(r.Key); ok && k == "/" {
+							root = true
+						}
+					}
+				}
+				if r, ok := i.(*ssa.Return); ok {
+					ret = r
+				}
+			}
+			if ret == nil {
+				continue
+			}
+			if nreg == 0 {
+				sup := false
+				for f := range pa.Facts {
+					if isSuppression(f) {
+						sup = true
+					}
+				}
+				if !sup {
+					badNone = "a path to the return at " + p.ipos(ret) + " registers nothing although no earlier registration was found"
+				}
+			}
+			if len(ret.Results) == 1 {
+				if b, ok := constBool(ret.Results[0]); ok && b && !root {
+					badRoot = "the return at " + p.ipos(ret) + " reports 'registered on root' on a path that did not register \"/\""
+				}
+			}
+		}
+		c.check(badNone == "", name, "every path registers unless an earlier registration was found", p.pos(fn.Pos()), itoa(len(paths))+" paths", badNone+": the service answers 404 through ServeHTTP")
+		c.check(badRoot == "", name, "'registered on root' is reported only after registering \"/\"", p.pos(fn.Pos()), "every `return true` path contains the \"/\" registration", badRoot+": later services are never registered on the mux")
+	}
+}
+
+// elementRooted: the expression is computed from an element of a container list.
+func elementRooted(p *Program, v ssa.Value) (ssa.Value, bool) {
+	found := false
+	exprShape(p, v, func(x ssa.Value) bool {
+		if _, ok := elementOfContainerList(p, x); ok {
+			found = true
+			return true
+		}
+		return false
+	}, 0)
+	return v, found
 }
